@@ -6,8 +6,11 @@
    back from the computed style (0 = no declaration won: initial value).
    `check` recomputes the winner with the model.
    codes: 0 agree, 1 cascaded value differs, 3 precedence table differs,
-          4 weight.Less differs, 5 flattened rule list differs. *)
-From Verif Require Export Css.Cascade.
+          4 weight.Less differs, 5 flattened rule list differs,
+          6 cascaded value differs from the SPECIFICATION (CDocSpec: documents
+            outside the domain of the model = spec theorem, i.e. with `&` in a
+            top-level rule, are compared with CascadeSpec.cascaded directly). *)
+From Verif Require Export Css.Cascade Css.CascadeSpec.
 From Coq Require Import List NArith Bool.
 Import ListNotations.
 Open Scope N_scope.
@@ -28,6 +31,8 @@ Inductive fdump := FD (specs : list s3) (ds : list decl).
 Inductive case :=
 | CDoc (device : N) (hints : bool) (ua : rules) (ua_device : N) (ph : rules) (ph_device : N)
        (authors : list author_sheet) (users : list usheet) (elems : list eobs)
+| CDocSpec (device : N) (hints : bool) (ua : rules) (ua_device : N) (ph : rules) (ph_device : N)
+       (authors : list author_sheet) (users : list usheet) (elems : list eobs)
 | CPrec (o : origin) (important : bool) (out : N)
 | CLess (w1 w2 : weight) (out : bool)
 | CFlat (device : N) (r : rules) (out : list fdump).
@@ -37,7 +42,8 @@ Definition to_node (c : cnode) : node :=
 
 Definition to_doc (c : case) : document :=
   match c with
-  | CDoc dev hints ua uad ph phd authors users _ =>
+  | CDoc dev hints ua uad ph phd authors users _
+  | CDocSpec dev hints ua uad ph phd authors users _ =>
       mkDoc dev hints ua uad ph phd authors (map (fun u => let 'US d r := u in (d, r)) users)
   | _ => mkDoc 0 false RNil 0 RNil 0 [] []
   end.
@@ -47,33 +53,36 @@ Definition to_doc (c : case) : document :=
    applies the computed style shows the parent's value *)
 Definition inherited (p : N) : bool := (p =? 1) || (p =? 2) || (p =? 5).
 
-Fixpoint expected (d : document) (p : path) (prop : N) : N :=
+(* f = the cascade: Cascade.used d (model) or CascadeSpec.cascaded d (specification) *)
+Definition cascade_fn := N -> path -> N -> option N.
+
+Fixpoint expected (f : cascade_fn) (p : path) (prop : N) : N :=
   match p with
   | [] => 0
   | _ :: anc =>
-      match used d 0 p prop with
+      match f 0 p prop with
       | Some v => v
-      | None => if inherited prop then expected d anc prop else 0
+      | None => if inherited prop then expected f anc prop else 0
       end
   end.
 
 (* a pseudo-element inherits from its element *)
-Definition expected_pseudo (d : document) (k : N) (p : path) (prop : N) : N :=
-  match used d k p prop with
+Definition expected_pseudo (f : cascade_fn) (k : N) (p : path) (prop : N) : N :=
+  match f k p prop with
   | Some v => v
-  | None => if inherited prop then expected d p prop else 0
+  | None => if inherited prop then expected f p prop else 0
   end.
 
-Definition pseudo_out (d : document) (p : path) (po : pobs) : list N :=
+Definition pseudo_out (f : cascade_fn) (p : path) (po : pobs) : list N :=
   let 'PO k present obs := po in
   map (fun o => let 'Ob prop _ := o in
-                if present then expected_pseudo d k p prop
-                else match used d k p prop with Some v => v | None => 0 end) obs.
+                if present then expected_pseudo f k p prop
+                else match f k p prop with Some v => v | None => 0 end) obs.
 
-Definition elem_out (d : document) (e : eobs) : list N :=
+Definition elem_out (f : cascade_fn) (e : eobs) : list N :=
   let 'EO p obs ps := e in
-  map (fun o => let 'Ob prop _ := o in expected d (map to_node p) prop) obs
-  ++ flat_map (pseudo_out d (map to_node p)) ps.
+  map (fun o => let 'Ob prop _ := o in expected f (map to_node p) prop) obs
+  ++ flat_map (pseudo_out f (map to_node p)) ps.
 
 Definition obs_vals (obs : list ob) : list N := map (fun o => let 'Ob _ v := o in v) obs.
 
@@ -112,7 +121,8 @@ Fixpoint flat_eqb (m : list (list N * list decl)) (o : list fdump) : bool :=
 (* model observable (printed in replays) *)
 Definition model_out (c : case) : list (list N) :=
   match c with
-  | CDoc _ _ _ _ _ _ _ _ elems => map (elem_out (to_doc c)) elems
+  | CDoc _ _ _ _ _ _ _ _ elems => map (elem_out (used (to_doc c))) elems
+  | CDocSpec _ _ _ _ _ _ _ _ elems => map (elem_out (cascaded (to_doc c))) elems
   | CPrec o i _ => [[declaration_precedence o i]]
   | CLess a b _ => [[if w_less a b then 1 else 0]]
   | CFlat dev r _ => map (fun x => fst x ++ [999] ++ flat_map (fun d => [d_prop d; d_vid d; if d_imp d then 1 else 0]) (snd x))
@@ -123,7 +133,10 @@ Definition check (c : case) : N :=
   match c with
   | CDoc _ _ _ _ _ _ _ _ elems =>
       let d := to_doc c in
-      if forallb (fun e => nlist_eqb (elem_out d e) (elem_impl e)) elems then 0 else 1
+      if forallb (fun e => nlist_eqb (elem_out (used d) e) (elem_impl e)) elems then 0 else 1
+  | CDocSpec _ _ _ _ _ _ _ _ elems =>
+      let d := to_doc c in
+      if forallb (fun e => nlist_eqb (elem_out (cascaded d) e) (elem_impl e)) elems then 0 else 6
   | CPrec o i out => if declaration_precedence o i =? out then 0 else 3
   | CLess a b out => if Bool.eqb (w_less a b) out then 0 else 4
   | CFlat dev r out => if flat_eqb (dump_flat (flatten_rules dev r false)) out then 0 else 5
